@@ -388,6 +388,27 @@ def cmd_check(pid, tier, seed, opts):
             r2 = verify(key, timeout_ms=60000)
             if r2.get("status") == "ok":
                 A[key] = r2
+    # frame units (purity of EVERY contracted kernel, C11) whose frame obligations engine A could not decide -- stale contract, body outside
+    # the subset, solver `unknown` -- are escalated to the run-time frame / freshness check of that contract on its own generator: only a
+    # modified argument or an aliasing result counts here (the value clauses belong to the contract's own property)
+    fesc = [c.key for c in frame_units if c.gen is not None and (
+        A.get(c.key, {}).get("status") in ("stale", "outside-subset")
+        or any(o["result"] not in ("unsat", "reachable") for o in A.get(c.key, {}).get("obligations", [])))]
+    if fesc:
+        pool3 = mp.get_context("fork").Pool(min(nproc, len(fesc)), maxtasksperchild=1)
+        try:
+            hs = [(k, pool3.apply_async(_task, (("C", k, "quick", seed, opts),))) for k in fesc]
+            dl = time.time() + 120.0
+            for key, h in hs:
+                try:
+                    (_kind, _key, r) = h.get(timeout=max(1.0, dl - time.time()))
+                except mp.TimeoutError:
+                    continue
+                ff = [f for f in r.get("failures", []) if str(f.get("clause", "")).startswith(("frame:", "fresh:"))]
+                if ff:
+                    C[key] = dict(r, failures=ff)
+        finally:
+            pool3.terminate()
     # escalation: functions engine A could not decide get a large-input search (their usual cause is a restructured body,
     # e.g. a fast path for large arrays, which the small quick domain cannot reach)
     esc = []
